@@ -29,10 +29,23 @@ import (
 	"verif/vk"
 )
 
-const (
-	T   = time.Second
-	eps = time.Millisecond
-)
+// T is the client timeout of the scenario being explored (set by the scenario's body and check:
+// scenarios of one worker run one at a time).
+var T = time.Second
+
+const eps = time.Millisecond
+
+// withTimeout runs a scenario with client timeout tv (reply delays, deadlines and the reference
+// durations all scale with it).
+func withTimeout(sc e1.Scenario, tv time.Duration) e1.Scenario {
+	body, check := sc.Body, sc.Check
+	sc.Body = func() { T = tv; body() }
+	sc.Check = func(e *vs.Exec) (string, []e1.Viol) { T = tv; return check(e) }
+	if tv != time.Second {
+		sc.Name = fmt.Sprintf("timeout=%v/%s", tv, sc.Name)
+	}
+	return sc
+}
 
 var serials = map[string]uint32{"udp": 405419896, "tcp": 303986753, "broadcast": 201020304}
 var addrs = map[string]string{"udp": "192.168.1.100:60000", "tcp": "192.168.1.101:60000", "broadcast": "192.168.1.102:60000"}
@@ -418,6 +431,18 @@ func main() {
 			scenarios = append(scenarios, portScenario(perm, b, bound))
 		}
 	}
+	for i := range scenarios {
+		scenarios[i] = withTimeout(scenarios[i], time.Second)
+	}
+	// other timeouts than one second (sub-second, fractional, long): histories of length <= 2
+	for _, tv := range []time.Duration{300 * time.Millisecond, 1500 * time.Millisecond, 2500 * time.Millisecond, 90 * time.Second} {
+		for first := range alphabet {
+			scenarios = append(scenarios, withTimeout(historyScenario(first, 2, 0), tv))
+			if first%3 == 0 {
+				scenarios = append(scenarios, withTimeout(historyScenario(first, 2, 60001), tv))
+			}
+		}
+	}
 	if r.Thorough() {
 		e1.PerScenario = 6 * time.Minute
 	}
@@ -425,7 +450,7 @@ func main() {
 	if r.Worker == "" && r.Replay == "" {
 		e1.Conformance(r)
 	}
-	r.Rule(fmt.Sprintf("histories: every sequence of length <= %d (fixed bind port: <= %d) over %d steps (path x network behaviour incl. silence, late and just-in-time replies, stray flood, TCP stall/refused/reset/EOF/blackhole, ICMP unreachable, SetAddress, discovery), step by step as environment choices; fixed-port scenarios with 2 and 3 concurrent callers (silent holders first; TCP refused / reset / EOF / blackholed next to calls that must be served) over all interleavings within the preemption bound. distinct = distinct history/outcome labels", maxLen, maxFixed, len(alphabet)))
+	r.Rule(fmt.Sprintf("histories: every sequence of length <= %d (fixed bind port: <= %d) over %d steps (path x network behaviour incl. silence, late and just-in-time replies, stray flood, TCP stall/refused/reset/EOF/blackhole, ICMP unreachable, SetAddress, discovery), step by step as environment choices; histories of length <= 2 again with client timeouts of 300 ms, 1.5 s, 2.5 s and 90 s; fixed-port scenarios with 2 and 3 concurrent callers (silent holders first; TCP refused / reset / EOF / blackholed next to calls that must be served) over all interleavings within the preemption bound. distinct = distinct history/outcome labels", maxLen, maxFixed, len(alphabet)))
 	r.Assume("virtual time: computation takes no time, so 'within the timeout' is decided with zero scheduling slack")
 	r.Assume("network behaviours are those of mc/shim/vs/net.go (refused connect fails immediately, blackholed connect blocks until the dial deadline, ICMP unreachable surfaces as a read error)")
 	r.Finish()
